@@ -65,8 +65,8 @@ theorem write_exactly_once_in_order {ρ : Nat → Reply} (hρ : AllAccept ρ) (o
 
 /-- **(a), language level.** Under such a handler a program delivers, per stream key, exactly the text of
 the `print` (items joined by OFS, then ORS) and `printf` statements it executed, in program order: `n` is the
-number of statements executed (all of them unless a run error — e.g. `nextofile` without console output, or the
-`printf >> f` after `print > f` flush mismatch — aborted the program, or `Cfg.readFuel` is too small for a getline).  Flushing at the end of the run and
+number of statements executed (all of them unless a run error — e.g. `nextofile` without console output —
+aborted the program, or `Cfg.readFuel` is too small for a getline).  Flushing at the end of the run and
 closing at teardown add nothing. -/
 theorem program_delivers_exactly_once_in_order {ρ : Nat → Reply} (hρ : AllAccept ρ) (cfg : Cfg) (prog : List Stmt) :
     ∃ n, n ≤ prog.length ∧ ((runProgram ρ cfg prog).2 = false → n = prog.length) ∧
